@@ -100,6 +100,7 @@ def run_shard(spec, res):
                 held = {c for (c, _, _) in d.allocs}
                 cands = [c for c in step.req['tag'].get('consumers', [])
                          if c not in held]
+                cands = [c for c in cands if c == c.lower()]
                 if not cands or rng.random() < 0.5:
                     return
                 c = cands[0]
